@@ -619,6 +619,26 @@ func genConc(prop string, seed uint64, tier string) *ConcScenario {
 	if prop == "C09" {
 		g.c09Defaults(sc)
 	}
+	if prop == "C14" && !cacheFam && sc.Kind != "map" && g.r.Bool(0.004) {
+		// a big table under the race detector: a MapOf filled to just below the
+		// grow threshold of 8192 root buckets (30 720 entries), then concurrent
+		// inserts that push it over while readers look up old keys
+		sc.HashMode, sc.CollideN, sc.Hasher = "det", 0, ""
+		sc.MinLen, sc.UsePre, sc.Presize = 32, false, 0
+		sc.Prefill, sc.PrefillKeep, sc.TwoContainers = 0, -1, false
+		sc.Setup = []Op{{K: XBulkInsert, Key: 100000, Val: 300000, N: 30640 + g.r.Intn(60)}}
+		sc.Phases = sc.Phases[:1]
+		ph := &sc.Phases[0]
+		ph.Tasks, ph.Delays, ph.Stall, ph.Optional = nil, nil, nil, nil
+		for t := 0; t < 3; t++ {
+			ph.Tasks = append(ph.Tasks, []Op{{K: XBulkInsert, Key: 200000 + 1000*t, Val: 400000 + int64(1000*t), N: 40 + g.r.Intn(30)}})
+		}
+		var rd []Op
+		for i := 0; i < 12; i++ {
+			rd = append(rd, Op{K: MLoad, Key: 100000 + g.r.Intn(30000)})
+		}
+		ph.Tasks = append(ph.Tasks, rd)
+	}
 	sc.Strategy = g.strategy(steps + 50)
 	if (prop == "C02" || prop == "C03" || prop == "C04") && g.r.Bool(0.03) {
 		g.storm(sc)
